@@ -1,5 +1,6 @@
 """C03 RPM, module and extra-file manifests survive a write/read cycle unchanged."""
 import copy
+import io
 import json
 
 from hypothesis import strategies as st
@@ -63,6 +64,8 @@ def rpms_case(case):
     obj, model = Rpms(), {}
     mf.fill_compose(obj)
     for op in case["ops"]:
+        if mf.forget(obj, obj.rpms, model, op):
+            continue
         trial = copy.deepcopy(model)
         if mf.rpm_model_apply(trial, op):
             must("add-valid", mf.rpm_call, obj, op)
@@ -83,6 +86,8 @@ def modules_case(case):
     mf.fill_compose(obj)
     caller = mf.ModuleCaller(case["lists"])
     for op in case["ops"]:
+        if mf.forget(obj, obj.modules, model, op):
+            continue
         trial = copy.deepcopy(model)
         if mf.module_model_apply(trial, op, case["lists"]):
             must("add-valid", caller.call, obj, op)
@@ -101,7 +106,15 @@ def extra_case(case):
     from productmd.extra_files import ExtraFiles
     obj, model = ExtraFiles(), {}
     mf.fill_compose(obj)
-    for op in case["ops"]:
+    for n, op in enumerate(case["ops"]):
+        if mf.forget(obj, obj.extra_files, model, op):
+            continue
+        if n % 3 == 2 and model:
+            # a per-tree dump in between is a dump, not an edit: what is read back later is what was added
+            v = sorted(model)[0]
+            for a in sorted(model[v]):
+                base = model[v][a][0]["file"].rsplit("/", 1)[0] if model[v][a] and "/" in model[v][a][0]["file"] else "Server"
+                _attempt(obj.dump_for_tree, io.StringIO(), v, a, base)
         trial = copy.deepcopy(model)
         if mf.extra_model_apply(trial, op):
             must("add-valid", mf.extra_call, obj, op)
@@ -115,9 +128,9 @@ def extra_case(case):
 
 
 def run(ctx):
-    ctx.forall("rpms", mf.rpm_history(), rpms_case, ctx.n(1000, 48000))
-    ctx.forall("modules", mf.module_history(), modules_case, ctx.n(1000, 48000))
-    ctx.forall("extra-files", mf.extra_history(), extra_case, ctx.n(800, 32000))
+    ctx.forall("rpms", mf.with_forgets(mf.rpm_history()), rpms_case, ctx.n(1000, 48000))
+    ctx.forall("modules", mf.with_forgets(mf.module_history()), modules_case, ctx.n(1000, 48000))
+    ctx.forall("extra-files", mf.with_forgets(mf.extra_history()), extra_case, ctx.n(800, 32000))
 
 
 REPLAY = {"rpms": rpms_case, "modules": modules_case, "extra-files": extra_case}
